@@ -35,5 +35,5 @@ def build(tier, seed):
                       nm + ' flavour: all sequences of %d keys from %d values, full validity check after every insertion, found / not found / duplicates' % (nk, nk + 1),
                       kind='K5', contracts=['rb.h'], defines=['NK=%d' % nk], flags=['--unwind', str(nk + 2)], bounded='%d insertions, keys in [0,%d]' % (nk, nk),
                       replay='C08', timeout=3000))
-    meta = dict(functions_under_contract=[u_ for u_ in ('rotl', 'rotr', 'crotl', 'crotr')], assumptions=[])
+    meta = dict(sweep_family='C08', functions_under_contract=[u_ for u_ in ('rotl', 'rotr', 'crotl', 'crotr')], assumptions=[])
     return [u], obs, meta
